@@ -112,6 +112,22 @@ fn parse_args() -> Args {
             "--skip-plan" => a.skip_plan = val(i).parse().unwrap(),
             "--one" => a.one = Some(val(i)),
             "--max-execs" => a.max_execs = val(i).parse().unwrap(),
+            "--only-prefix" => {
+                // directed amplification: plans only for hook sites whose name starts with one of the prefixes
+                for pre in val(i).split(',') {
+                    let mut any = false;
+                    for (name, id) in may::queue::verif::site::NAMES.iter() {
+                        if name.starts_with(pre) {
+                            a.only_site.push(*id);
+                            any = true;
+                        }
+                    }
+                    if !any {
+                        eprintln!("no site starts with {}", pre);
+                        std::process::exit(2);
+                    }
+                }
+            }
             "--only-site" => {
                 // directed amplification: plans only for the named hook sites
                 for n in val(i).split(',') {
